@@ -22,6 +22,18 @@ func c09Hub(x *Ctx) {
 	x.Net.Latency = func(*simnet.Conn) time.Duration { return lat }
 	stored := Pick(x, "stored", []string{"", "SHIPID-B", "SOMETHING-ELSE", "SHIPID-B ", "SHIPID-"})
 	dialler := Pick(x, "dialler", []string{"A", "B", "both"})
+	// A first connection (made by B) is lost while A does not trust B yet; A's user pairs
+	// afterwards and B connects again: the stored SHIP ID must still bind
+	latePairing := x.Feat(FeatLatePairing) && x.Chance("late-pairing", 0.4)
+	lossKind, pairGap := "", time.Duration(0)
+	if latePairing {
+		if dialler == "A" {
+			dialler = "B"
+		}
+		lossKind = Pick(x, "first-loss", []string{"cut", "cut", "peer-disconnect"})
+		pairGap = time.Duration(x.Choose("pair-gap", 4)) * time.Second
+		x.SigAdd("late-pairing=" + lossKind)
+	}
 	x.SigAdd("stored="+stored, "dialler="+dialler)
 	x.SetSample(map[string]any{"engine": "hub", "stored_ship_id_for_B_at_A": stored, "real_ship_id_of_B": "SHIPID-B", "who_dials": dialler, "latency": lat.String()})
 	x.Go("A:start", func() {
@@ -30,8 +42,35 @@ func c09Hub(x *Ctx) {
 		if stored != "" {
 			a.hub.ServiceForSKI(b.ski).SetShipID(stored)
 		}
-		a.hub.RegisterRemoteSKI(b.ski) // before Start: stored pairing, A trusts B
+		if !latePairing {
+			a.hub.RegisterRemoteSKI(b.ski) // before Start: stored pairing, A trusts B
+		}
 		a.hub.Start()
+		if latePairing {
+			// wait for B's first connection, lose it while B is still waiting for trust
+			for i := 0; i < 400; i++ {
+				seen := false
+				for _, e := range x.Events() {
+					if e.Kind == "hub-register" && e.A == "A" {
+						seen = true
+					}
+				}
+				if seen {
+					break
+				}
+				simrt.Sleep(50 * time.Millisecond)
+			}
+			simrt.Sleep(time.Duration(x.Choose("loss-after", 4)) * 300 * time.Millisecond)
+			x.Probe("first-connection-lost-while-untrusted")
+			if lossKind == "cut" {
+				r.cutNewest("A")
+			} else {
+				hb, as := b.hub, a.ski
+				b.spawn("op", func() { hb.DisconnectSKI(as, "x") })
+			}
+			simrt.Sleep(pairGap)
+			a.hub.RegisterRemoteSKI(b.ski)
+		}
 		if dialler == "B" {
 			// A must not dial: hide B from A's mDNS view
 			return
